@@ -343,6 +343,17 @@ def part_time_grid(ctx, nss, RegionGeomToO):
             elif abs(off[0]) > tol or (n > 1 and np.max(np.abs(np.diff(off) - T / n)) > tol) or not (off[-1] < T and abs(off[-1] - (T - T / n)) <= tol):
                 ctx.violation("RegionGeomToO.generate_times", "not-equally-spaced", "instants are not t0 + k T/N, k < N", case)
     ctx.count("time-grid-sizes", top + 5)
+    # long campaigns densely sampled (number of instants x observation time beyond 2**63 ns, 2**53 us …): still t0 + k T/N
+    for T, n in ((30 * 86400.0, 4000), (60 * 86400.0, 4000), (365.25 * 86400.0, 8766), (7 * 86400.0, 20000), (86400.0, 120000)):
+        cfg.simulation.target.source_obst = T
+        geom = RegionGeomToO(cfg)
+        off = np.asarray((geom.generate_times(n) - geom.too_source.eventtime).sec, dtype=np.float64)
+        ctx.case(("time-grid-long", T, n)); ctx.count("time-grid-long-campaigns")
+        want = np.arange(n) * (T / n)
+        if len(off) != n or np.max(np.abs(off - want)) > 1e-4:
+            k_ = int(np.argmax(np.abs(off - want))) if len(off) == n else -1
+            ctx.violation("RegionGeomToO.generate_times", "not-equally-spaced", f"N = {n} instants over T = {T:g} s: instants are not t0 + k T/N, k < N",
+                          {"N": n, "T": T, "instants": int(len(off)), "k": k_, "offset_s": float(off[k_]) if k_ >= 0 else None, "expected_s": float(want[k_]) if k_ >= 0 else None})
 
 
 def part_timezone(ctx, nss, RegionGeomToO):
@@ -478,6 +489,27 @@ def part_dark(ctx, nss, RegionGeomToO):
             sun = np.asarray(too.get_sun(times).alt.rad, dtype=np.float64)
             moon = np.asarray(too.get_moon(times).alt.rad, dtype=np.float64)
             phase = np.asarray(too.moon_phase_angle(times).value, dtype=np.float64)
+        if n <= 1000:
+            # the altitudes of Sun and Moon as seen from the CONFIGURED detector, evaluated here with astropy directly (the bodies with
+            # their distances, i.e. with the topocentric parallax: about a degree for the Moon) — not through the object under test
+            import astropy.coordinates as ac
+            from astropy import units as au
+            loc_ = ac.EarthLocation(lat=float(cfg.detector.initial_position.latitude) * au.rad, lon=float(cfg.detector.initial_position.longitude) * au.rad,
+                                    height=float(cfg.detector.initial_position.altitude) * 1000 * au.m)
+            fr_ = ac.AltAz(obstime=times, location=loc_)
+            with np.errstate(all="ignore"):
+                sun_i = np.asarray(ac.get_body("sun", times).transform_to(fr_).alt.rad, dtype=np.float64)
+                moon_i = np.asarray(ac.get_body("moon", times).transform_to(fr_).alt.rad, dtype=np.float64)
+            ctx.count("independent_ephemeris_instants", n)
+            for nm_, a_, b_ in (("Sun", sun, sun_i), ("Moon", moon, moon_i)):
+                if np.max(np.abs(a_ - b_)) > 1e-7:
+                    k_ = int(np.argmax(np.abs(a_ - b_)))
+                    ctx.violation("ToOEvent.get_" + nm_.lower(), "altitude-not-as-seen-from-the-detector",
+                                  f"the altitude of the {nm_} the dark-sky cut goes by differs by {np.degrees(abs(a_[k_] - b_[k_])):.4f} deg from its altitude as seen from the configured detector",
+                                  {"cfg": ci, "date": cfg.simulation.target.source_date, "instant": k_, "det": [cfg.detector.initial_position.latitude, cfg.detector.initial_position.longitude, cfg.detector.initial_position.altitude],
+                                   "altitude_used_rad": float(a_[k_]), "altitude_from_the_detector_rad": float(b_[k_])})
+                    break
+            sun, moon = sun_i, moon_i
         stream = ("structured", "boundary")[ci % 2]
         if stream == "boundary":
             # thresholds that coincide exactly with computed angles: the comparisons are strict
